@@ -14,6 +14,7 @@ import (
 	"path/filepath"
 	"strings"
 	"sync"
+	"time"
 
 	"github.com/gethiox/HIDI/internal/pkg/input"
 	"github.com/gethiox/HIDI/internal/pkg/logger"
@@ -127,6 +128,15 @@ func (t *tree) build(root string) error {
 			os.WriteFile(filepath.Join(p, "BROKEN.TOML"), []byte("[[[["), 0o644)
 		}
 	}
+	// every file gets the same old modification time: the loader must be a function of the tree's CONTENT, whatever
+	// it has seen under the same path before in this process (trees are rebuilt in place thousands of times)
+	fixed := time.Date(2020, 1, 1, 0, 0, 0, 0, time.UTC)
+	filepath.Walk(filepath.Join(root, "hidi-config"), func(p string, info os.FileInfo, err error) error {
+		if err == nil {
+			os.Chtimes(p, fixed, fixed)
+		}
+		return nil
+	})
 	return nil
 }
 
